@@ -27,13 +27,13 @@ theorem cloneLoop_nofault (w : World) (src dst : Nat) (s n : VecSt) (i k : Nat) 
     ∃ n', cloneLoop src dst i k w =
         ({ w with vecs := w.vecs.set dst n', created := w.created + k,
                   ev := (cloneEvents s i k w.created).reverse ++ w.ev }, .ok ()) ∧
-      n'.len = n.len ∧ n'.cap = n.cap ∧ n'.live = true ∧ n'.ty = n.ty ∧ n'.bk = n.bk ∧
+      n'.len = n.len ∧ n'.cap = n.cap ∧ n'.live = true ∧ n'.ty = n.ty ∧ n'.bk = n.bk ∧ n'.cloneable = n.cloneable ∧
       n.cells.length ≤ n'.cells.length ∧
       (∀ j, j < i → n'.cells.get j = n.cells.get j) ∧
       (∀ j, j < k → n'.cells.get (i + j) = .val (w.created + j)) := by
   induction k generalizing w n i with
   | zero =>
-    refine ⟨n, ?_, rfl, rfl, hnl, rfl, rfl, Nat.le_refl _, fun _ _ => rfl, fun j hj => absurd hj (by omega)⟩
+    refine ⟨n, ?_, rfl, rfl, hnl, rfl, rfl, rfl, Nat.le_refl _, fun _ _ => rfl, fun j hj => absurd hj (by omega)⟩
     have : w.vecs.set dst n = w.vecs := by
       apply List.ext_getElem?; intro m
       by_cases hm : dst = m
@@ -54,11 +54,11 @@ theorem cloneLoop_nofault (w : World) (src dst : Nat) (s n : VecSt) (i k : Nat) 
     let w1 : World := { w with vecs := w.vecs.set dst n1, created := w.created + 1,
                                ev := Event.clone id w.created :: w.ev }
     have hs1 : w1.vecs[src]? = some s := by simp [w1, List.getElem?_set, Ne.symm hsd, hs]
-    obtain ⟨n', he, h1, h2, h3, h4, h4b, h5, h6, h7⟩ := ih (w := w1) (n := n1) (i := i + 1) hs1 (by omega)
+    obtain ⟨n', he, h1, h2, h3, h4, h4b, h4c, h5, h6, h7⟩ := ih (w := w1) (n := n1) (i := i + 1) hs1 (by omega)
       (by intro j hj; have := hsinit (j + 1) (by omega); rw [show i + 1 + j = i + (j + 1) by omega]; exact this)
       (by simp [w1, hnlt]) rfl (by simp [n1]; omega) (by simp [w1, hf])
     refine ⟨n', ?_, by simpa [n1] using h1, by simpa [n1] using h2, h3, by simpa [n1] using h4,
-      by simpa [n1] using h4b, ?_, ?_, ?_⟩
+      by simpa [n1] using h4b, by simpa [n1] using h4c, ?_, ?_, ?_⟩
     · have hstep : cloneLoop src dst i (k + 1) w = cloneLoop src dst (i + 1) k w1 := by
         simp [cloneLoop, readElem, getVec, hslt, hsdd, hsl, VecSt.readElem_ok, hbs, hid, cloneElem, tick, hf, fresh,
           World.writeCell, hnlt, hndd, hnl, VecSt.writeCell_ok, hbn, World.upd, w1, n1]
